@@ -154,6 +154,10 @@ func asmCoqEH(s asmStep, login *string) string {
 		k = "(EhReal (MRedirect 0%Z (Some " + vf.CoqStr(to) + ")))"
 	case "redir":
 		k = `(EhReal (MRedirect 0%Z (Some "http://idp.example/login"%string)))`
+	case "www":
+		k = `(EhReal (MWWW "r"%string))`
+	case "www_dflt":
+		k = `(EhReal (MWWW ""%string))`
 	case "redir301":
 		k = `(EhReal (MRedirect 301%Z (Some "/local"%string)))`
 	}
@@ -239,9 +243,8 @@ func asmMechanisms(helper string) map[string]any {
 			map[string]any{"id": "redir301", "type": "redirect", "config": map[string]any{"to": "/local", "code": 301}},
 			// request dependent target: renders nothing when the header is absent
 			map[string]any{"id": "redir_hdr", "type": "redirect", "config": map[string]any{"to": `{{ .Request.Header "X-Login-Url" }}`}},
-			// no www_authenticate handler here: it cannot be declared in a configuration file at all (the schema
-			// demands type "www-authenticate", the type registry only knows "www_authenticate"); the first stream
-			// runs the real mechanism
+			map[string]any{"id": "www", "type": "www_authenticate", "config": map[string]any{"realm": "r"}},
+			map[string]any{"id": "www_dflt", "type": "www_authenticate"},
 		},
 	}
 }
@@ -479,7 +482,7 @@ func asmGenRule(r *vf.Rand, calm, isDefault bool) *asmRule {
 	}
 
 	for i, m := 0, r.Intn(4); i < m; i++ {
-		rl.EH = append(rl.EH, asmStep{M: vf.Pick(r, []string{"dflt", "redir", "redir301", "redir_hdr", "redir_hdr"}), If: cond()})
+		rl.EH = append(rl.EH, asmStep{M: vf.Pick(r, []string{"dflt", "redir", "redir301", "redir_hdr", "redir_hdr", "www", "www_dflt"}), If: cond()})
 	}
 
 	if !isDefault {
